@@ -1,6 +1,6 @@
 # property table: what each check builds, proves and runs
 from .fam_valid import Valid
-from .fam_be import Be
+from .fam_be import Be, BGone
 from .fam_seg import Seg
 from .fam_iovs import Iovs
 from .fam_fe import Fe, FeTrunc
@@ -65,7 +65,7 @@ reg(id="C04", props="Props/C04.v", proof_files=["Proofs/BeProofs.v", "Proofs/Tab
     rule=BE_RULE, trusted_base=BE_TB, assumptions=BE_ASSUME)
 reg(id="C07", props="Props/C07.v", proof_files=["Proofs/BeProofs.v", "Proofs/TableProofs.v", "Proofs/FeProofs.v"], families=[Be(), Fe(), Proxy()],
     rule=BE_RULE + " || " + FE_RULE, trusted_base=BE_TB + ["Spec/Gates.v: operation -> gating feature table"], assumptions=BE_ASSUME)
-reg(id="C09", props="Props/C09.v", proof_files=["Proofs/BeProofs.v"], families=[Be(), Fsrv(), Dmn()],
+reg(id="C09", props="Props/C09.v", proof_files=["Proofs/BeProofs.v"], families=[Be(), Fsrv(), Dmn(), BGone()],
     rule=BE_RULE + "; descriptors are distinct memfds identified by inode; leak = known inodes still open after dropping server, handler state and peer, plus growth of /proc/self/fd"
     " || family dmn: every daemon history (ring, memory, log, adversarial, backend-request-channel, routing) ends with a teardown step: frontend, connection, daemon and all "
     "harness-side descriptors dropped, then /proc/self/fd is counted against the count taken before the daemon was built; kick/call/err descriptors replaced while a ring "
@@ -125,7 +125,7 @@ MEM_RULE = (DMN_RULE + " || memory histories: SET_MEM_TABLE with 1..8 regions (s
 MEM_TB = DMN_TB + ["Spec/MemSpec.v: my transcription of C13/C14 from the property text",
                    "mmap(MAP_SHARED) coherence between a memfd's mapping and pread/pwrite on it (kernel)"]
 reg(id="C13", props="Props/C13.v", proof_files=["Proofs/MemProofs.v"], families=[Dmn()], rule=MEM_RULE, trusted_base=MEM_TB, assumptions=DMN_ASSUME)
-reg(id="C14", props="Props/C14.v", proof_files=["Proofs/MemProofs.v"], families=[Dmn()], rule=MEM_RULE, trusted_base=MEM_TB, assumptions=DMN_ASSUME)
+reg(id="C14", props="Props/C14.v", proof_files=["Proofs/MemProofs.v", "Proofs/CtlProofs.v"], families=[Dmn()], rule=MEM_RULE, trusted_base=MEM_TB, assumptions=DMN_ASSUME)
 LOG_RULE = (MEM_RULE + " || dirty log: SET_LOG_BASE with windows from too small to ample, non-zero and unaligned offsets, before/after memory-table "
             "changes; backend writes (write_slice, add_used, 2..16 concurrent writer threads on pages sharing log bytes) at page and region edges; the shared "
             "log file is read back (touched words, guard bytes before and after the window) and compared with Spec/MemSpec.v's own page-set oracle")
